@@ -25,10 +25,16 @@ def data_carriers(case):
         if case.get("as_time"):
             return ["nd_f8", "series"]
         cars = [c for c in cars if c not in ("nd_obj", "series_obj")]
+    if vals and all(v is None or (v.denominator == 1 and abs(v) < 2 ** 31) for v in vals) and not case.get("as_time") and fn != "valid":
+        cars.append("ma_i4")
+        if all(v is None or 0 <= v < 256 for v in vals):
+            cars.append("ma_u1")
     if vals and all(v is not None and v.denominator == 1 for v in vals) and not case.get("as_time"):
         cars.append("nd_i8")
         if all(0 <= v < 65536 for v in vals):
             cars.append("nd_u2")
+        if all(-128 <= v < 128 for v in vals):
+            cars.append("nd_i1")
     return cars
 
 
@@ -100,6 +106,14 @@ def run(out: Outcome, drv):
         pool = [it[0] for it in fx.corpus_items("C15") if it[0]["fn"] == fn]
         for k in range(n + len(pool)):
             case = pool[k] if k < len(pool) else gen.GENERATORS[fn](rng, 10 if out.tier == "quick" else 20)
+            if k >= len(pool) and k % 4 == 3 and fn not in ("location", "speed") and not case.get("as_time"):
+                # every fourth case on whole numbers, so that the integer-dtype carriers (int64, uint16, int8, integer
+                # masked arrays) apply; for the profile / band tests the depths as well
+                case = copy.deepcopy(case)
+                for key in fx.SERIES_KEYS[fn]:
+                    if key != "t":
+                        case[key] = [None if v is None else F(int(v // 1)) for v in case[key]]
+                case = fx.refresh(case)
             if not std_margin_ok(case):
                 continue
             variants = []
@@ -123,7 +137,8 @@ def run(out: Outcome, drv):
             if not a["in_dom"]:
                 out.tags["skipped_domain_or_invalid_params"] += 1
                 continue
-            out.record(case, fx.nontrivial(obs[0]), [f"fn:{fn}", f"variants:{len(variants)}"])
+            out.record(case, fx.nontrivial(obs[0]), [f"fn:{fn}", f"variants:{len(variants)}"] +
+                       [f"carrier:{v[0]}" for v in variants if v[0] in ("nd_i8", "nd_u2", "nd_i1", "ma_i4", "ma_u1")])
             if a["holds"]:
                 continue
             base = obs[variants.index(("nd_f8", "dt64ns", "list"))]
